@@ -247,6 +247,8 @@ pub fn err_name(e: &DBError) -> String {
         DBError::AlreadyExists { .. } => "err:exists".into(),
         DBError::NotFound { .. } => "err:notfound".into(),
         DBError::Index { .. } => "err:index".into(),
+        // a handle that is not active (poisoned, closing, …) answers with a typed state error
+        DBError::Generic { .. } if e.collection_state().is_some() => "err:state".into(),
         DBError::Generic { .. } => "err:generic".into(),
         other => format!("err:other({})", format!("{other:?}").chars().take(80).collect::<String>().replace([' ', '\n'], "_")),
     }
@@ -764,7 +766,11 @@ pub async fn run_real(ops: &[String]) -> Result<CaseRun, String> {
             let shape = toks[0];
             run.complaints.push((i, format!("rejected:{shape}:{out}:left-a-trace"), format!("a rejected {shape} ({out}) changed what the collection shows"), b.dump.clone(), obs.dump.clone()));
         }
-        if c.is_poisoned() { run.complaints.push((i, "poisoned".into(), "the handle poisoned itself on a storage backend that never fails".into(), "healthy handle".into(), "poisoned".into())); }
+        // third-order shape of F-C02-2: an HNSW index created in a post-crash open callback refuses a stored vector
+        // (other dimension); an update that touches the vector field of such a document fails in the index and its
+        // rollback cannot re-insert the old vector either -> the handle poisons itself
+        let hn_refuses = tainted.get("hn").is_some_and(|dim| obs.docs.values().any(|d| matches!(get(d, HN_FIELD), Val::Vec(n) if n != *dim)));
+        if c.is_poisoned() { run.complaints.push((i, if hn_refuses { F_C02_2.to_string() } else { "poisoned".into() }, "the handle poisoned itself on a storage backend that never fails".into(), "healthy handle".into(), "poisoned".into())); }
         for (k, w, e, o) in obs.complaints.clone() { let k = if is_f_c02_2(&k, &e, &o, &tainted, &mut refused, &obs.docs) { F_C02_2.to_string() } else { k }; run.complaints.push((i, k, w, e, o)); }
         run.steps.push(StepRec { op: line.clone(), out, dump: obs.dump.clone(), tag: String::new() });
         last = Some(obs);
